@@ -72,6 +72,39 @@ enum ReadAct {
 enum Delivery {
     Process { cuts: Vec<usize>, shared: bool },
     ReadFrom { script: Vec<ReadAct> },
+    /// `TendrilSink::from_file`: "temp" = the case's bytes written to a scratch file; any other
+    /// source is the path of a kernel pseudo-file whose reported size (0) is not its content size
+    FromFile { source: String },
+}
+
+/// Constant pseudo-files: regular files by their metadata, size 0, content of some dozens of bytes.
+const PSEUDO_FILES: &[&str] = &["/proc/version", "/proc/filesystems", "/proc/self/cmdline", "/proc/sys/kernel/ostype", "/proc/sys/kernel/osrelease"];
+
+thread_local! {
+    static FILE_SEQ: std::cell::Cell<u64> = const { std::cell::Cell::new(0) };
+}
+
+/// The bytes `from_file` has to deliver and the path to hand to it (plus whether to delete it).
+fn file_source(c: &BCase) -> Option<(Vec<u8>, std::path::PathBuf, bool)> {
+    let source = match &c.delivery {
+        Delivery::FromFile { source } => source.clone(),
+        _ => return None,
+    };
+    if let Some(path) = source.strip_prefix('=') {
+        return Some((c.bytes.clone(), std::path::PathBuf::from(path), false));
+    }
+    if source == "temp" {
+        let n = FILE_SEQ.with(|s| {
+            s.set(s.get() + 1);
+            s.get()
+        });
+        let path = std::env::temp_dir().join(format!("verif-sim-{}-{}.bin", std::process::id(), n));
+        std::fs::write(&path, &c.bytes).ok()?;
+        Some((c.bytes.clone(), path, true))
+    } else {
+        let bytes = std::fs::read(&source).ok()?;
+        Some((bytes, std::path::PathBuf::from(source), false))
+    }
 }
 
 #[derive(Clone, Debug, PartialEq, Eq)]
@@ -148,13 +181,16 @@ fn emit(c: &BCase) -> Value {
             ReadAct::Interrupted => json!(["interrupted"]),
             ReadAct::Error => json!(["error"]),
         }).collect::<Vec<_>>()}),
+        Delivery::FromFile { source } => json!({"kind": "from_file", "source": source}),
     };
     json!({"bytes_hex": hex(&c.bytes), "bytes_lossy": String::from_utf8_lossy(&c.bytes[..c.bytes.len().min(200)]), "encoding": c.encoding, "pipeline": c.pipeline, "delivery": d, "decoder_kind": c.decoder_kind})
 }
 
 fn parse(v: &Value) -> BCase {
     let d = &v["delivery"];
-    let delivery = if d["kind"].as_str() == Some("read_from") {
+    let delivery = if d["kind"].as_str() == Some("from_file") {
+        Delivery::FromFile { source: d["source"].as_str().unwrap_or("temp").to_string() }
+    } else if d["kind"].as_str() == Some("read_from") {
         Delivery::ReadFrom {
             script: d["script"]
                 .as_array()
@@ -353,14 +389,49 @@ impl BytesWorld {
         let pipeline = *rng.pick(&["decoder", "decoder", "decoder", "html", "xml"]);
         let encoding = if pipeline != "decoder" || rng.chance(2, 5) { "utf-8".to_string() } else { rng.pick(ENCODINGS).to_string() };
         let len = if rng.chance(1, if thorough { 25 } else { 60 }) { rng.range(3000, 12000) } else { *rng.pick(&[0usize, 1, 2, 3, 4, 5, 8, 13, 21, 40, 80, 200]) };
-        let bytes = if pipeline != "decoder" {
+        let big = rng.chance(1, 150);
+        let bytes = if big && (encoding == "utf-8" || rng.chance(1, 2)) {
+            // big chunks: every window / buffer boundary of a block-wise decoder falls inside a
+            // multi-byte sequence for some alignment
+            let mut n = *rng.pick(&[4096usize, 8192, 16384, 16384, 32768, 65536, 65536, 131072]) + rng.below(8);
+            if rng.chance(1, 3) {
+                n += rng.below(n / 2 + 1);
+            }
+            let mut v: Vec<u8> = Vec::with_capacity(n + 8);
+            for _ in 0..rng.below(4) {
+                v.push(b'a');
+            }
+            let filler: &[&str] = match rng.below(4) {
+                0 => &["é"],
+                1 => &["中"],
+                2 => &["😀"],
+                _ => &["é", "中", "😀", "a", "\r\n"],
+            };
+            while v.len() < n {
+                if rng.chance(1, 2000) {
+                    let b: &[u8] = UTF8_BAD[rng.below(UTF8_BAD.len())];
+                    v.extend_from_slice(b);
+                } else {
+                    v.extend_from_slice(rng.pick_str(filler).as_bytes());
+                }
+            }
+            if pipeline != "decoder" {
+                let mut w = b"<p>".to_vec();
+                w.extend_from_slice(&v);
+                w
+            } else {
+                v
+            }
+        } else if pipeline != "decoder" {
             gen_utf8ish(rng, len.min(400), true)
         } else if encoding == "utf-8" && rng.chance(1, 2) {
             gen_utf8ish(rng, len, false)
         } else {
             gen_for_encoding(rng, &encoding, len)
         };
-        let delivery = if rng.chance(1, 3) {
+        let delivery = if rng.chance(1, 300) {
+            Delivery::FromFile { source: if rng.chance(1, 2) { "temp".to_string() } else { rng.pick(PSEUDO_FILES).to_string() } }
+        } else if rng.chance(1, 3) {
             let mut script = vec![];
             for _ in 0..rng.range(1, 6) {
                 script.push(match rng.below(10) {
@@ -461,6 +532,25 @@ fn model_sink() -> ModelSink {
 }
 
 fn run(c: &BCase, stats: &mut Stats) -> Result<u64, Violation> {
+    if let Delivery::FromFile { source } = &c.delivery {
+        if source != "temp" && !source.starts_with('=') {
+            // the content is whatever the kernel reports: read it once ourselves, check from_file
+            // against that, and keep it out of the digest (it differs between machines)
+            return match std::fs::read(source) {
+                Err(_) => {
+                    stats.inc("F12_pseudo_file_unavailable");
+                    Ok(0xF11E)
+                },
+                Ok(bytes) => {
+                    let mut k = c.clone();
+                    k.bytes = bytes;
+                    k.delivery = Delivery::FromFile { source: format!("={source}") };
+                    stats.inc("F12_from_file_size_lying_pseudo_file");
+                    run(&k, stats).map(|_| 0xF11E)
+                },
+            };
+        }
+    }
     let (want_text, want_errs) = reference(c);
     if want_errs > 0 {
         stats.inc("cases_with_ill_formed_input");
@@ -489,6 +579,22 @@ fn run(c: &BCase, stats: &mut Stats) -> Result<u64, Violation> {
                             d.process(ch);
                         }
                         d.finish();
+                    }
+                },
+                Delivery::FromFile { .. } => {
+                    let (_, path, delete) = file_source(c).expect("file source checked by the caller");
+                    let res = if c.encoding == "utf-8" && c.decoder_kind == 0 {
+                        Utf8LossyDecoder::new(sink).from_file(&path)
+                    } else {
+                        let enc = Encoding::for_label(c.encoding.as_bytes()).expect("label");
+                        make_lossy(enc, c.decoder_kind, sink).from_file(&path)
+                    };
+                    if delete {
+                        let _ = std::fs::remove_file(&path);
+                    }
+                    stats.inc("F12_from_file_runs");
+                    if let Err(e) = res {
+                        return Err(Violation::new("spurious-io-error", format!("from_file({}) returned Err({e})", path.display())));
                     }
                 },
                 Delivery::ReadFrom { script } => {
@@ -572,6 +678,22 @@ fn run(c: &BCase, stats: &mut Stats) -> Result<u64, Violation> {
                         }
                         Ok(p.finish())
                     }
+                },
+                Delivery::FromFile { .. } => {
+                    let (_, path, delete) = file_source(c).expect("file source checked by the caller");
+                    let res = if is_html {
+                        html5ever::driver::parse_document(model_sink(), Default::default()).from_utf8().from_file(&path)
+                    } else {
+                        xml5ever::driver::parse_document(model_sink(), Default::default()).from_utf8().from_file(&path)
+                    };
+                    if delete {
+                        let _ = std::fs::remove_file(&path);
+                    }
+                    stats.inc("F12_from_file_runs");
+                    if res.is_err() {
+                        return Err(Violation::new("spurious-io-error", format!("from_file({}) returned Err", path.display())));
+                    }
+                    res
                 },
                 Delivery::ReadFrom { script } => {
                     let mut r = SimReader { data: &c.bytes, pos: 0, script, step: 0, interrupted: 0, short_reads: 0, errored: false, consecutive_interrupts: 0 };
@@ -666,6 +788,7 @@ fn candidates(c: &BCase) -> Vec<BCase> {
                 out.push(n);
             }
         },
+        Delivery::FromFile { .. } => {},
         Delivery::ReadFrom { script } => {
             for i in 0..script.len() {
                 let mut s = script.clone();
@@ -726,11 +849,12 @@ impl World for BytesWorld {
         let nontrivial = !c.bytes.is_empty()
             && match &c.delivery {
                 Delivery::Process { cuts, .. } => !cuts.is_empty(),
-                Delivery::ReadFrom { .. } => true,
+                Delivery::ReadFrom { .. } | Delivery::FromFile { .. } => true,
             };
         stats.add("events", 1 + match &c.delivery {
             Delivery::Process { cuts, .. } => cuts.len() as u64,
             Delivery::ReadFrom { script } => script.len() as u64,
+            Delivery::FromFile { .. } => 1,
         });
         stats.inc(&format!("pipeline_{}", c.pipeline));
         if c.decoder_kind != 0 {
@@ -781,6 +905,6 @@ impl World for BytesWorld {
         false
     }
     fn expected_probes(&self) -> Vec<&'static str> {
-        vec!["F8_byte_chunks_delivered", "F8_reads_interrupted", "F8_short_reads", "F8_hard_read_errors", "probe_cut_inside_multibyte_sequence", "probe_decoded_output_over_8192_bytes", "cases_with_ill_formed_input"]
+        vec!["F8_byte_chunks_delivered", "F8_reads_interrupted", "F8_short_reads", "F8_hard_read_errors", "probe_cut_inside_multibyte_sequence", "probe_decoded_output_over_8192_bytes", "cases_with_ill_formed_input", "F12_from_file_runs", "F12_from_file_size_lying_pseudo_file"]
     }
 }
